@@ -129,3 +129,27 @@ Proof. exact c18_coarse_legacy_refuted. Qed.
 Check C18_fine.
 Check C18_any_clock.
 Check C18_coarse_clock_every_history.
+
+(* ---- an older copy put (back) at a path by the user: `mv`, which keeps the modification time ----
+   (fine clock) Whatever the table remembers about q - in particular a NEWER time with the hash of what was at q -
+   after `mv p q` the ticket ruler computes for q is the hash of the bytes that are now there. This is the
+   theorem a `<=` comparison in the shortcut falsifies (Proofs/MvFacts.v mv_le_shortcut_refuted; seeds C01-2,
+   C08-3, C10-3 are such mutations). *)
+From Ruler Require Import MvFacts.
+
+Theorem C18_older_copy_moved_into_place_is_rehashed : forall (w : world sym) p q st f,
+  disk_inv sym_eqb SContent w -> state_ok sym_eqb SContent w st -> fget (move_file w p q) q = Some f ->
+  get_file_ticket sym_eqb SContent (move_file w p q) q st = Some (SContent (f_content f)).
+Proof. exact mv_old_copy_is_rehashed_sym. Qed.
+Print Assumptions C18_older_copy_moved_into_place_is_rehashed.
+
+(* (coarse clock) The user's `mv` of one target over ANOTHER target written in the same tick is outside what an
+   mtime shortcut can see, and outside the property's alphabet (its user actions are writes, which take a new
+   tick): the per-path invariant does not survive it, and C18's conclusion fails on the witness. Stated so that
+   the exclusion of OMove from the coarse-clock theorems (CoarseBuild.op_confined) is visible, not hidden. *)
+Theorem C18_coarse_clock_user_mv_refuted :
+  exists (w : world sym) p q,
+    coarse_inv sym_eqb SContent w /\ safe_op sym (OMove p q) /\
+    ~ coarse_inv sym_eqb SContent (fst (apply_sym w (OMove p q))).
+Proof. exact coarse_inv_mv_refuted. Qed.
+Print Assumptions C18_coarse_clock_user_mv_refuted.
